@@ -43,9 +43,10 @@ Record rawerr := mkRaw {
   is_neterr : bool;             (* implements net.Error *)
   is_timeout : bool }.          (* net.Error.Timeout() *)
 
-(* EOther: errors that reach handleConn without passing through handleError
-   (undecodable message, oversize frame, errors of another Conn implementation) *)
-Inductive ecls := EClosed | ECanceled | EEOF | EUnknown | ETimeout | EOther.
+(* ETooBig: the peer announced a frame above MaxPacketSize (tcp.go receiveRawProd wraps ErrTooBig; it
+   does not pass through handleError). EOther: the remaining errors that reach handleConn without
+   passing through handleError (undecodable message, errors of another Conn implementation). *)
+Inductive ecls := EClosed | ECanceled | EEOF | EUnknown | ETimeout | ETooBig | EOther.
 
 Definition handle_error (e : rawerr) : ecls :=
   if has_use_of_closed e || has_broken_pipe e then EClosed
@@ -57,10 +58,11 @@ Definition handle_error (e : rawerr) : ecls :=
 
 Inductive verdict := Drop | Continue.
 
-(* handleConn: ErrTimeout, then ErrClosed/ErrEOF, then ErrUnknown leave the loop *)
+(* handleConn: ErrTimeout, then ErrClosed/ErrEOF, then ErrUnknown, then ErrTooBig (since the F04 fix: the
+   body of the refused frame was not read, the stream cannot be parsed any more) leave the loop *)
 Definition classify (c : ecls) : verdict :=
   match c with
-  | ETimeout | EClosed | EEOF | EUnknown => Drop
+  | ETimeout | EClosed | EEOF | EUnknown | ETooBig => Drop
   | ECanceled | EOther => Continue
   end.
 
@@ -622,3 +624,74 @@ Definition flood_outcome (fx : bool) (cap k : nat) : bool * bool * bool * bool :
       let sends_ok := negb (lock_s s4) && (all_sent || (fx && closed_ok)) in
       (closed_ok, sends_ok, lock_free s4, lock_free s4)
   end.
+
+(* ---- the router's mutex -----------------------------------------------------------------------------
+
+   Which code of network/router.go runs with r.Mutex held, and what it calls meanwhile. sync.Mutex is
+   not re-entrant: a thread that asks for the mutex it holds waits for ever, and so does everybody else.
+     connection, registerConnection, launchHandleRoutine, removeConnection, Closed, Tx, Rx :
+                        Lock; touch the tables; Unlock  -- nothing is called with the mutex held
+     Stop             : Lock; isClosed = true; c.Close() for every connection; Unlock; wg.Wait
+     handleConn       : Lock/Unlock (paused), Closed(), then on an unrecoverable error
+                        triggerConnectionErrorHandlers: the handlers are called WITHOUT the mutex
+                        ([handlers_locked = false]); a variant that takes the mutex around the calls
+                        ([handlers_locked = true], seeded change C09-A) dead-locks as soon as a handler uses
+                        its own router
+     error handler    : application code; a re-entrant one calls Closed / Tx / Send on the router
+   Threads are instruction lists; one instruction = one step. *)
+
+Inductive instr := ILock | IUnlock | IWork.
+
+Definition lockprog := list instr.
+
+Record msys := mkM { mu : option nat; progs : list lockprog }.
+
+Fixpoint set_nth {A} (l : list A) (i : nat) (x : A) : list A :=
+  match l, i with
+  | [], _ => []
+  | _ :: r, 0 => x :: r
+  | y :: r, S j => y :: set_nth r j x
+  end.
+
+(* thread t executes its next instruction *)
+Definition mstep (s : msys) (t : nat) : option msys :=
+  match nth_error (progs s) t with
+  | Some (ILock :: r) => match mu s with
+                         | None => Some (mkM (Some t) (set_nth (progs s) t r))
+                         | Some _ => None                       (* waits -- also when it is the holder itself *)
+                         end
+  | Some (IUnlock :: r) => match mu s with
+                           | Some h => if h =? t then Some (mkM None (set_nth (progs s) t r)) else None
+                           | None => None
+                           end
+  | Some (IWork :: r) => Some (mkM (mu s) (set_nth (progs s) t r))
+  | _ => None
+  end.
+
+Fixpoint mrun (s : msys) (ts : list nat) : option msys :=
+  match ts with
+  | [] => Some s
+  | t :: r => match mstep s t with None => None | Some s' => mrun s' r end
+  end.
+
+Definition locked_section (body : lockprog) : lockprog := ILock :: body ++ [IUnlock].
+
+(* one error handler: a re-entrant one asks its router something *)
+Definition handler_prog (reentrant : bool) : lockprog :=
+  if reentrant then locked_section [] (* r.Closed() *) else [IWork].
+
+(* handleConn from the return of Receive with an unrecoverable error to its end *)
+Definition loop_exit_prog (handlers_locked : bool) (handlers : list bool) : lockprog :=
+  locked_section [] (* paused? *) ++ locked_section [] (* Closed() *) ++
+  (if handlers_locked then [ILock] else []) ++
+  concat (map handler_prog handlers) ++
+  (if handlers_locked then [IUnlock] else []) ++
+  [IWork] (* c.Close *) ++ locked_section [] (* removeConnection *).
+
+(* Router.Send with a connect *)
+Definition send_prog : lockprog :=
+  locked_section [] (* connection() *) ++ [IWork; IWork] (* dial, identity *) ++
+  locked_section [] (* registerConnection *) ++ locked_section [] (* launchHandleRoutine *) ++ [IWork] (* c.Send *).
+
+Definition stop_prog : lockprog :=
+  [IWork] (* host.Stop *) ++ locked_section [IWork] (* closed flag, c.Close of every connection *) ++ [IWork] (* wg.Wait *).
